@@ -331,7 +331,8 @@ def drawing(draw, min_symbols=3, max_symbols=6, symbol_pool=None, sources_v=None
         k = draw(st.sampled_from(range(n)))
         items.append({'sym': 'ground', 'at': home[k]})
         used.add(k)
-    for lab in draw(st.lists(gen.label.filter(lambda s: s != '0' and not s.isdigit()), max_size=2, unique=True)):
+    # numeric labels are legal and interesting: unlabelled nodes are numbered automatically and must dodge them
+    for lab in draw(st.lists(st.one_of(st.sampled_from(['1', '2', '3', '4', '5', '6', '10']), gen.label.filter(lambda s: s != '0')), max_size=2, unique=True)):
         k = draw(st.sampled_from(range(n)))
         if k not in used and lab not in names:
             used.add(k)
